@@ -192,7 +192,8 @@ def run(ctx):
         ctx.violation(k, f"configuration {c['lab']} {c['det']}: {msg}", {"config": c})
     # ---- T -----------------------------------------------------------------------------
     cases = [("1HPX", C.test_pdb_text("1HPX"), []), ("3SGB-subset", C.test_pdb_text("3SGB-subset"), [])] + \
-        [c_ for c_ in coupled_constructs(ctx) if ctx.thorough() or not c_[0].startswith(("1FTJ+", "1HPX-asp25B-coupled", "1HPX-asp25B-at-chain-start ["))]
+        [c_ for c_ in coupled_constructs(ctx) if ctx.thorough() or c_[0] == "1HPX-asp25B-at-chain-start [shared+keep]"
+         or not c_[0].startswith(("1FTJ+", "1HPX-asp25B-coupled", "1HPX-asp25B-at-chain-start ["))]
     if ctx.thorough():
         cases += [("1FTJ-Chain-A", C.test_pdb_text("1FTJ-Chain-A"), []), ("3SGB", C.test_pdb_text("3SGB"), []), ("4DFR", C.test_pdb_text("4DFR"), []),
                   ("conf-alt-AB", C.test_pdb_text("conf-alt-AB"), [])]
